@@ -1,9 +1,10 @@
 (* Property C03 — statements only.  Each is closed by [exact] of a lemma proved elsewhere.
    Model: Package.v (FIXED = the code with fixes/F9 F34 F37 F38 ...); abstract XML / bytes with par (ser x) = x.
-   WFd = bookkeeping invariant (unique dict keys, current folder time stamps, only XML parts cached), evaluated as the
-   boolean WFdb on every implementation state by the correspondence. *)
+   WFd = bookkeeping invariant (unique dict keys, current folder time stamps, only XML parts cached, a parsed tree has
+   bytes behind it); C03_full proves it along every history; the correspondence also evaluates it (WFdb) on every
+   implementation state. *)
 From Coq Require Import List ZArith Bool. Import ListNotations.
-Require Import Package PkgManproof PkgZipproof Pkgproof Pkgproof3 Pkgproof4 Pkgproof5 PkgInstproof.
+Require Import Package PkgManproof PkgZipproof Pkgproof Pkgproof3 Pkgproof4 Pkgproof5 PkgStepWF PkgStepWF4 PkgInitproof PkgHistproof PkgInstproof.
 Open Scope Z_scope.
 
 (* save (zip or folder; path or buffer target; pretty or not) then open by path: the new document shows, part by part,
@@ -94,11 +95,119 @@ Print Assumptions C03_folder_set_part_refuted.
 Example C03_example : WFd cxml cbytes Z ex_fs ex_doc /\ (forall x, cpar (cser x) = x) /\ (forall x, cmask (cstamp x) = cmask x).
 Proof. exact (conj ex_doc_wf (conj cpar_cser cmask_cstamp)). Qed.
 
-(* full strength, for the record: the three theorems above for every state reachable by a history.  Proved: for every
-   state satisfying WFd.  Not proved (evaluated on every implementation state instead): that every operation of the
-   history alphabet preserves WFd; buffer-opened reopening (needs unique names in the archive, which C04 gives);
-   flat XML (C03_flatxml_partial is covered by the correspondence only). *)
-Definition C03_full : Prop :=
-  forall (ops : list cop) (s0 : cfs * cdoc), cWFdb (fst s0) (snd s0) = true ->
-    let s := run cxml cbytes Z cser cpar cpretty cstamp centries cwith_entries ckids cmime cmime_bytes crdf0 FIXED s0 ops in
-    cWFdb (fst s) (snd s) = true.
+(* C03_full, one operation: every operation of the alphabet (open, new, get_part, XML part access, edit, set_part, del_part, add_file, import, save in any packaging to any target, clone) preserves SInv = unique member names in every archive of the file system + the bookkeeping invariant WFd of the document *)
+Theorem C03_full_step :
+  forall (xml bytes kid : Type) (ser : xml -> bytes)
+           (par : bytes -> xml) (pretty stamp : xml -> xml)
+           (entries : xml -> mentries) (with_entries : mentries -> xml -> xml)
+           (kids : xml -> list kid) (mime : bytes -> mtype)
+           (mime_bytes : mtype -> bytes) (rdf0 : bytes),
+         (forall x : xml, par (ser x) = x) ->
+         forall (s : fsys bytes kid * document xml bytes) (o : op xml bytes),
+         SInv xml bytes kid s ->
+         SInv xml bytes kid
+           (fst
+              (step xml bytes kid ser par pretty stamp entries with_entries
+                 kids mime mime_bytes rdf0 FIXED s o)).
+Proof. exact step_inv. Qed.
+Print Assumptions C03_full_step.
+
+(* C03_full: ... hence along any history *)
+Theorem C03_full :
+  forall (xml bytes kid : Type) (ser : xml -> bytes)
+           (par : bytes -> xml) (pretty stamp : xml -> xml)
+           (entries : xml -> mentries) (with_entries : mentries -> xml -> xml)
+           (kids : xml -> list kid) (mime : bytes -> mtype)
+           (mime_bytes : mtype -> bytes) (rdf0 : bytes),
+         (forall x : xml, par (ser x) = x) ->
+         forall (os : list (op xml bytes))
+           (s : fsys bytes kid * document xml bytes),
+         SInv xml bytes kid s ->
+         SInv xml bytes kid
+           (run xml bytes kid ser par pretty stamp entries with_entries kids
+              mime mime_bytes rdf0 FIXED s os).
+Proof. exact run_inv. Qed.
+Print Assumptions C03_full.
+
+(* C03_roundtrip for every state reachable by any history from a state satisfying SInv (an opened package, a new document: C04_start): no WFd hypothesis left *)
+Theorem C03_roundtrip_reachable :
+  forall (xml bytes kid : Type) (ser : xml -> bytes)
+           (par : bytes -> xml) (pretty stamp : xml -> xml)
+           (entries : xml -> mentries) (with_entries : mentries -> xml -> xml)
+           (kids : xml -> list kid) (mime : bytes -> mtype)
+           (mime_bytes : mtype -> bytes) (rdf0 : bytes) 
+           (mask : xml -> xml),
+         (forall x : xml, par (ser x) = x) ->
+         forall (s0 : fsys bytes kid * document xml bytes)
+           (os : list (op xml bytes)),
+         SInv xml bytes kid s0 ->
+         forall (t : target) (pk : packaging) (pty : bool)
+           (fs' : fsys bytes kid) (d' : document xml bytes)
+           (c : container bytes),
+         pk <> PXml ->
+         (pty = true -> forall x : xml, mask (pretty x) = mask x) ->
+         d_save xml bytes kid ser par pretty stamp entries kids mime rdf0 FIXED
+           (fst
+              (run xml bytes kid ser par pretty stamp entries with_entries kids
+                 mime mime_bytes rdf0 FIXED s0 os))
+           (snd
+              (run xml bytes kid ser par pretty stamp entries with_entries kids
+                 mime mime_bytes rdf0 FIXED s0 os)) t pk pty = (
+         fs', d', true) ->
+         c_open bytes kid fs' (tgt_id t) false = Some c ->
+         forall n : name,
+         view xml bytes kid par mask fs' {| cont := c; xps := nil |} n =
+         view xml bytes kid par mask
+           (fst
+              (run xml bytes kid ser par pretty stamp entries with_entries kids
+                 mime mime_bytes rdf0 FIXED s0 os)) d' n.
+Proof. exact roundtrip_reachable. Qed.
+Print Assumptions C03_roundtrip_reachable.
+
+(* save leaves memory as it was, for every reachable state *)
+Theorem C03_unmodified_identity_reachable :
+  forall (xml bytes kid : Type) (ser : xml -> bytes)
+           (par : bytes -> xml) (pretty stamp : xml -> xml)
+           (entries : xml -> mentries) (with_entries : mentries -> xml -> xml)
+           (kids : xml -> list kid) (mime : bytes -> mtype)
+           (mime_bytes : mtype -> bytes) (rdf0 : bytes) 
+           (mask : xml -> xml),
+         (forall x : xml, par (ser x) = x) ->
+         forall (s0 : fsys bytes kid * document xml bytes)
+           (os : list (op xml bytes)),
+         SInv xml bytes kid s0 ->
+         (forall x : xml, mask (stamp x) = mask x) ->
+         forall (t : target) (pk : packaging) (pty : bool)
+           (fs' : fsys bytes kid) (d' : document xml bytes),
+         d_save xml bytes kid ser par pretty stamp entries kids mime rdf0 FIXED
+           (fst
+              (run xml bytes kid ser par pretty stamp entries with_entries kids
+                 mime mime_bytes rdf0 FIXED s0 os))
+           (snd
+              (run xml bytes kid ser par pretty stamp entries with_entries kids
+                 mime mime_bytes rdf0 FIXED s0 os)) t pk pty = (
+         fs', d', true) ->
+         forall n : name,
+         n <> RDF ->
+         view xml bytes kid par mask
+           (fst
+              (run xml bytes kid ser par pretty stamp entries with_entries kids
+                 mime mime_bytes rdf0 FIXED s0 os)) d' n =
+         view xml bytes kid par mask
+           (fst
+              (run xml bytes kid ser par pretty stamp entries with_entries kids
+                 mime mime_bytes rdf0 FIXED s0 os))
+           (snd
+              (run xml bytes kid ser par pretty stamp entries with_entries kids
+                 mime mime_bytes rdf0 FIXED s0 os)) n.
+Proof. exact save_pure_reachable. Qed.
+Print Assumptions C03_unmodified_identity_reachable.
+
+(* the initial-state predicate is inhabited: the file system of the four templates has unique member names, and the empty
+   document (before the first open / new) is well formed *)
+Example C03_initial_state : SInv cxml cbytes Z (tmpl_fs, mkD (mkC [] [] None PZip) []).
+Proof. exact (conj (proj1 tmpl_fs_ok) (empty_doc_wf cxml cbytes Z tmpl_fs)). Qed.
+
+(* still covered by the correspondence only: re-opening from a BytesIO in C03_roundtrip (stated for opening by path; the part
+   map of a buffer-opened package is characterised by PkgOKstep4.open_obs and used for C04), flat XML beyond
+   C03_flatxml_partial, in-place folder saves (clock). *)
